@@ -151,6 +151,7 @@ def setup():
   import pox.core as P
   m = _Mods()
   m.U, m.R, m.P, m.RE = U, R, P, RE
+  m.real_make_pinger = U.make_pinger
   m.trace = {}
   for name in TRACE_FUNCS:
     m.trace[_resolve(R, name)] = None
@@ -241,9 +242,12 @@ class _TracebackShim(object):
 
 def _scn_a(p, ds, obs, m):
   R, P = m.R, m.P
-  progs = p["threads"]
+  progs = p["threads"]      # per thread: ops "cl" | "co" | "rl" | ["b", N] (N consecutive Scheduler.callLater)
+  hold = bool(p.get("hold"))  # each thread submits inside `with scheduler.synchronized():`
+  warm = bool(p.get("warm"))  # one call-later round trip first, so that the CallLaterTask is waiting in its Select
   log = []
-  expected = [(i, j) for i, pr in enumerate(progs) for j in range(len(pr))]
+  counts = [sum(op[1] if isinstance(op, list) else 1 for op in pr) for pr in progs]
+  expected = [(i, j) for i in range(len(progs)) for j in range(counts[i])]
 
   def mk(i, j, t0):
     def f(*a, **kw):
@@ -254,20 +258,42 @@ def _scn_a(p, ds, obs, m):
     obs.core = types.SimpleNamespace(scheduler=s)
     obs.src = m.Src()
     obs.src.addListener(m.Ev, lambda ev: ev.tag())
+    if warm:
+      done = []
+      s.callLater(lambda: done.append(1))
+      ds.wait_quiescent("a: warm-up")
+      if not done:
+        obs.fail("wakeup-needs-poll", "scenario a: the warm-up function had not run at quiescence", scn="a")
+
+  def submit(i):
+    s = obs.s
+    j = 0
+    for op in progs[i]:
+      if isinstance(op, list):
+        if op[0] != "b":
+          raise HarnessError("bad op %r" % (op,))
+        for _ in range(op[1]):
+          s.callLater(mk(i, j, ds.vtime()))
+          j += 1
+        continue
+      f = mk(i, j, ds.vtime())
+      j += 1
+      if op == "cl":
+        s.callLater(f)
+      elif op == "co":
+        P.POXCore.call_later(obs.core, f)
+      elif op == "rl":
+        P.POXCore.raiseLater(obs.core, obs.src, m.Ev, f)
+      else:
+        raise HarnessError("bad op %r" % (op,))
 
   def body(i):
     def run():
-      s = obs.s
-      for j, op in enumerate(progs[i]):
-        f = mk(i, j, ds.vtime())
-        if op == "cl":
-          s.callLater(f)
-        elif op == "co":
-          P.POXCore.call_later(obs.core, f)
-        elif op == "rl":
-          P.POXCore.raiseLater(obs.core, obs.src, m.Ev, f)
-        else:
-          raise HarnessError("bad op %r" % (op,))
+      if hold:
+        with obs.s.synchronized():
+          submit(i)
+      else:
+        submit(i)
     return run
 
   def snap():
@@ -276,21 +302,24 @@ def _scn_a(p, ds, obs, m):
   def judge(out, final):
     q = obs.q if obs.q is not None else []
     ran_q = set((i, j) for i, j, _, _, _ in q)
-    for ij in expected:
-      if ij not in ran_q:
+    missing = [ij for ij in expected if ij not in ran_q]
+    for ij in missing[:1]:
+      if True:
         later = [e for e in final if (e[0], e[1]) == ij]
         if later:
-          out.fail("wakeup-needs-poll", "scenario a: function %r submitted at t=%r had not run when every thread was blocked; "
-                   "it ran only at t=%r after virtual time advanced (polling timeout)" % (ij, later[0][3], later[0][4]), scn="a")
+          out.fail("wakeup-needs-poll", "scenario a: %d of %d functions (first: %r, submitted at t=%r) had not run when every thread "
+                   "was blocked; it ran only at t=%r after virtual time advanced (polling timeout)"
+                   % (len(missing), len(expected), ij, later[0][3], later[0][4]), scn="a")
         else:
-          out.fail("call-lost", "scenario a: function %r had not run at quiescence and did not run during %d s of polling either"
-                   % (ij, 3 * CYCLE_MAX), scn="a")
+          out.fail("call-lost", "scenario a: %d of %d functions (first: %r) had not run at quiescence and did not run during %d s "
+                   "of polling either" % (len(missing), len(expected), ij, 3 * CYCLE_MAX), scn="a")
     cnt = {}
     for e in final:
       cnt[(e[0], e[1])] = cnt.get((e[0], e[1]), 0) + 1
     for ij, c in sorted(cnt.items()):
       if c > 1:
         out.fail("call-ran-twice", "scenario a: function %r ran %d times" % (ij, c), scn="a")
+        break
     for e in final:
       if not e[2]:
         out.fail("call-wrong-thread", "scenario a: function %r did not run on the scheduler thread" % ((e[0], e[1]),), scn="a")
@@ -298,7 +327,9 @@ def _scn_a(p, ds, obs, m):
     for i in range(len(progs)):
       js = [e[1] for e in final if e[0] == i]
       if js != sorted(js):
-        out.fail("call-order", "scenario a: thread %d submitted 0..%d in order but they ran in order %r" % (i, len(progs[i]) - 1, js), scn="a")
+        bad = [k for k in range(1, len(js)) if js[k] < js[k - 1]][:3]
+        out.fail("call-order", "scenario a: thread %d submitted 0..%d in order but they ran out of order, e.g. around positions %r: %r"
+                 % (i, counts[i] - 1, bad, [js[max(0, k - 1):k + 1] for k in bad]), scn="a")
     for e in q:
       if e[4] != e[3]:
         out.fail("wakeup-needs-poll", "scenario a: function %r submitted at t=%r ran at t=%r" % ((e[0], e[1]), e[3], e[4]), scn="a")
@@ -610,6 +641,14 @@ def _execute(case):
   pre_sleep = r[5] if len(r) > 5 else 0.0
   final = {}
 
+  realp = case.get("pinger") == "real"
+
+  def pinger_check(when):
+    for name, site, dl in ds.blocked():
+      if dl is None and site and (site.startswith("os.read") or ".pong(empty)" in site):
+        obs.fail("wakeup-lost-in-pinger", "scenario %s: %s: thread %s is blocked for ever draining a pinger that is empty (%s); "
+                 "nothing it should do next can happen until an unrelated ping arrives" % (scn, when, name, site), scn=scn)
+
   nondefault = case.get("cfg") == "nondefault"
   others = []
 
@@ -634,9 +673,11 @@ def _execute(case):
     if pre_sleep:
       ds.wait_quiescent("main: quiescence")
     obs.q = snap()
+    pinger_check("at quiescence")
     ds.freeze()
     ds.time.sleep(3 * CYCLE_MAX)
     final["v"] = snap()
+    pinger_check("after %d s of polling" % (3 * CYCLE_MAX))
     for x in [s] + others:
       x.quit()
       x._selectHub.break_idle()
@@ -647,9 +688,13 @@ def _execute(case):
 
   buf = io.StringIO()
   old_default = R.defaultScheduler
+  if realp:    # the real PipePinger code of pox.lib.util over detsched's virtual pipes
+    upatch = ds.patched(U, os=ds.os, makePinger=m.real_make_pinger, make_pinger=m.real_make_pinger)
+  else:
+    upatch = ds.patched(U, makePinger=ds.make_pinger, make_pinger=ds.make_pinger)
   with ds.patched(R, threading=ds.threading, Thread=ds.Thread, time=ds.time, select=ds.select,
                   traceback=_TracebackShim(obs)), \
-       ds.patched(U, makePinger=ds.make_pinger, make_pinger=ds.make_pinger), \
+       upatch, \
        contextlib.redirect_stdout(buf):
     try:
       res = ds.run(main)
@@ -665,6 +710,9 @@ def _execute(case):
     if isinstance(e, HarnessError) or exc_is_from_harness(e):
       raise HarnessError("C07: harness exception on %s: %r" % (who, e)) from e
     out.violations.append({"key": exc_key(e, clause=clause, scn=scn), "msg": "%s: %r" % (who, e)})
+  wedged = any(v[0] == "wakeup-lost-in-pinger" for v in obs.viol)   # then the shutdown cannot complete either
+  if wedged:
+    res.deadlock = res.stalled = None
   if res.deadlock is not None:
     out.fail("deadlock", "scenario %s: no thread can run and none has a timeout: %r" % (scn, res.deadlock), scn=scn)
   if res.stalled is not None:
@@ -687,6 +735,9 @@ def _execute(case):
   wp = [d for d in res.preemptions if d["window"]]
   if nondefault:
     out.label("cfg:nondefault")
+  out.label("pinger:" + ("real" if realp else "fake"))
+  if scn == "a" and any(isinstance(op, list) for pr in case["p"]["threads"] for op in pr):
+    out.label("a:burst", "a:burst-total:%d" % sum(op[1] for pr in case["p"]["threads"] for op in pr if isinstance(op, list)))
   out.label("scn:" + scn, "hub:" + ("threaded" if hub else "inline"), "sched:" + ("dev" if "devs" in sc else "random"))
   if sc.get("on") == "op":
     out.label("sched:opcode-level")
